@@ -44,14 +44,15 @@ Proof.
   all: first [ rewrite neg64_ok by lia | rewrite sub64_ok by lia ]; rewrite bind_ret_l; rewrite shr64_ok by lia; reflexivity.
 Qed.
 
+Opaque Generated.CalculateArithmeticShift Generated64.CalculateArithmeticShift.
 (* HorizontalZoomMinMax: zoom difference up to 61 either way; when zooming in, the scaled indices stay within 2^61 *)
 Lemma gen64_HorizontalZoomMinMax_fits_gen : forall iz x y oz,
   - 61 <= oz - iz <= 61 ->
   Z.abs x * 2 ^ Z.max 0 (oz - iz) <= 2 ^ 61 -> Z.abs y * 2 ^ Z.max 0 (oz - iz) <= 2 ^ 61 ->
   Generated64.HorizontalZoomMinMax iz x y oz = Some (Generated.HorizontalZoomMinMax iz x y oz, true).
 Proof.
-  intros iz x y oz Hd Hx Hy. unfold Generated64.HorizontalZoomMinMax, Generated.HorizontalZoomMinMax. cbv zeta.
-  ok1 lia. ok1 lia.
+  intros iz x y oz Hd Hx Hy. repeat autounfold with sidgen64. repeat autounfold with sidgen. cbv zeta. unfold pow2abs_64.
+  ok1 lia. ok1 lia. rewrite ?bind_ret_l; cbv beta zeta.
   pose proof (pow2_bounds (Z.abs (oz - iz)) ltac:(lia)) as Hp.
   pose proof (pow2_bounds (Z.max 0 (oz - iz)) ltac:(lia)) as Hq.
   assert (Hx' : Z.abs x <= 2 ^ 61) by nia. assert (Hy' : Z.abs y <= 2 ^ 61) by nia.
@@ -85,8 +86,8 @@ Lemma gen64_VerticalZoom_minmax_fits_gen : forall iz v oz,
   - 61 <= oz - iz <= 61 -> Z.abs v * 2 ^ Z.max 0 (oz - iz) <= 2 ^ 61 ->
   Generated64.VerticalZoom_minmax iz v oz = Some (Generated.VerticalZoom_minmax iz v oz, true).
 Proof.
-  intros iz v oz Hd Hv. unfold Generated64.VerticalZoom_minmax, Generated.VerticalZoom_minmax. cbv zeta.
-  ok1 lia. ok1 lia.
+  intros iz v oz Hd Hv. repeat autounfold with sidgen64. repeat autounfold with sidgen. cbv zeta. unfold pow2abs_64.
+  ok1 lia. ok1 lia. rewrite ?bind_ret_l; cbv beta zeta.
   pose proof (pow2_bounds (Z.abs (oz - iz)) ltac:(lia)) as Hp.
   pose proof (pow2_bounds (Z.max 0 (oz - iz)) ltac:(lia)) as Hq.
   assert (Hv' : Z.abs v <= 2 ^ 61) by nia.
@@ -105,6 +106,7 @@ Proof.
   intros iz v oz Hi Ho Hv. apply gen64_VerticalZoom_minmax_fits_gen; [lia|]; now apply valid_scaled.
 Qed.
 
+Transparent Generated.CalculateArithmeticShift Generated64.CalculateArithmeticShift.
 (* Higher: differences 0..61 (below 0 the shift panics: [None]; from 63 on the divisor saturates), any int64 indices *)
 Theorem gen64_ExtendedSpatialID_Higher_fits : forall h x y v f hd vd,
   - 2 ^ 62 <= h <= 2 ^ 62 -> - 2 ^ 62 <= v <= 2 ^ 62 -> 0 <= hd <= 61 -> 0 <= vd <= 61 ->
